@@ -524,6 +524,9 @@ func (e *MetaExecutor) ReadGroup(nodeID uint64, shardIDs []uint64, ctx context.C
 
 // dial returns a connection to a single node in the cluster.
 func (e *MetaExecutor) dial(nodeID uint64) (net.Conn, error) {
+	if e.pool == nil {
+		return nil, ErrClientClosed
+	}
 	// If we don't have a connection pool for that addr yet, create one
 	_, ok := e.pool.getPool(nodeID)
 	if !ok {
